@@ -20,11 +20,13 @@
    succeeds (EndToEnd), and by C06_concatenations its result has every strand and super-sequence the
    concatenation of its base sequences' values.  Hypothesis: the record names are distinct (no sequence
    name ends in '*'; a structure and a sequence never share a name since the D13 repair).
-   NOT proved: the same composition through nested systems and the saved state (.save), and the
-   structure layout; exercised end to end (in-process and through the three command-line tools). *)
+   The composition holds in the structure layout as well (C06_compiled_design_finishes_struct), and for whole
+   nested systems the designer side is proved: what the compiler writes loads and gets arrays or the report
+   (C06_compiled_system_designs).  NOT proved: the finish side through nested systems and the saved state (.save);
+   exercised end to end (in-process, through the three command-line tools and through design()). *)
 From Coq Require Import List String Ascii Arith Bool.
 From PC Require Import Base.Codes Comp.Syntax Comp.Compile Comp.Denote Comp.EmitProofs Sys.System Finish.Apply Finish.ApplyProofs Design.ShapeProofs Design.ComposeProofs
-  Design.Designer Design.TemplateProofs Design.DGraph Design.DenoteGraph Design.DenoteTie Design.DenoteSat Design.Results Design.ResultsProofs Design.Loaded Design.LoadedStruct Design.CrossProofs Design.EndToEnd.
+  Design.Designer Design.TemplateProofs Design.DGraph Design.DenoteGraph Design.DenoteTie Design.DenoteSat Design.Results Design.ResultsProofs Design.Loaded Design.LoadedStruct Design.CrossProofs Design.EndToEnd Base.Sexp Comp.WfPil Sys.System Sys.SysWfPil Sys.SysDesign.
 Import ListNotations.
 
 Theorem C06_finished_bases_consistent_partial : forall t prefix bs vals, base_values t prefix bs = OK vals ->
@@ -186,3 +188,14 @@ Theorem C06_compiled_component_end_to_end_struct : forall ctr prefix d body c ct
              (NoDup (map fst recs) -> exists f, apply_comp (table_of recs) c = OK f))).
 Proof. exact compiled_component_end_to_end_struct. Qed.
 Print Assumptions C06_compiled_component_end_to_end_struct.
+
+(* whole systems, designer side of the hand-over: what the compiler writes for a (nested) system is accepted by the
+   designer's loader, and constraint generation returns arrays or reports over-constraint *)
+Theorem C06_compiled_system_designs : forall fs includes ctr basename args lines ctr',
+  compile_top fs includes ctr basename args [] = OK (lines, ctr') ->
+  (forall o, load_file fs includes 12 ctr basename args "" "." = OK (o, ctr') -> names_ok 12 o) ->
+  (forall n k len, In (PSeq n k len) lines -> valid_template k = true) ->
+  wf_pil lines = true /\ (exists p, load_spec lines pspec0 = OK p) /\
+  (design_arrays lines false = DOver \/ exists e w s, design_arrays lines false = DOk e w s).
+Proof. exact compiled_system_designs. Qed.
+Print Assumptions C06_compiled_system_designs.
